@@ -214,6 +214,15 @@ Definition prop_ge_spec (vals : list xv) (t : Q) : xv :=
   | _ => XFin (zq (Z.of_nat (length (filter (fun x => xge x (XFin t)) v))) / zq (Z.of_nat (length v)))
   end.
 
+(* the same for a threshold that may be infinite (a catch-all bin edge): every valid value is >= -inf, a valid value is
+   >= +inf only when it is +inf itself.  Only NaN is missing.  (coq/proofs/C18_inf.v) *)
+Definition prop_ge_spec_x (vals : list xv) (t : xv) : xv :=
+  let v := valids vals in
+  match v, t with
+  | [], _ | _, XNaN => XNaN
+  | _, _ => XFin (zq (Z.of_nat (length (filter (fun x => xge x t) v))) / zq (Z.of_nat (length v)))
+  end.
+
 (* ------------------------------------------------------------------------------------ *)
 (* entries                                                                                *)
 (* ------------------------------------------------------------------------------------ *)
@@ -265,9 +274,9 @@ Definition entries_C18 : list entry := [
      match r with RL [x; t] =>
        let? x := d_xv x in let? t := d_xv t in Some (e_xv (exceed x t))
      | _ => None end));
-  (* ( (values) t ) -> proportion of valid values >= t *)
+  (* ( (values) t ) -> proportion of valid values >= t  (t rational or +-inf; prop_ge_spec_x l (XFin t) = prop_ge_spec l t) *)
   ("c18_prop_spec", fun r => orun (
      match r with RL [l; t] =>
-       let? l := d_xvs l in let? t := d_q t in Some (e_xv (prop_ge_spec l t))
+       let? l := d_xvs l in let? t := d_xv t in Some (e_xv (prop_ge_spec_x l t))
      | _ => None end))
 ].
